@@ -98,8 +98,10 @@ func ptrTo[T any](v T) *T { return &v }
 // imEqual compares two holders; a nil and an empty byte slice are the same value (neither form distinguishes them).
 func imEqual(a, b reflect.Value) bool {
 	for _, h := range []reflect.Value{a, b} {
-		if m := h.Elem().Field(1); m.Kind() == reflect.Slice && m.Len() == 0 {
-			m.Set(reflect.Zero(m.Type()))
+		for i := 0; i < h.Elem().NumField(); i++ {
+			if m := h.Elem().Field(i); m.Kind() == reflect.Slice && m.Len() == 0 {
+				m.Set(reflect.Zero(m.Type()))
+			}
 		}
 	}
 
@@ -200,6 +202,18 @@ func TestInlinedMemberMatrix(t *testing.T) {
 								f()
 							}
 							labels := []string{"tag:" + tag}
+							binaryAccepted := false
+							guardJSON := func(f func()) {
+								defer func() {
+									if r := recover(); r != nil {
+										if binaryAccepted {
+											fail("JSON form panicked: %v", r)
+										}
+										labels = append(labels, "json_panicked_on_value_without_binary_encoding")
+									}
+								}()
+								f()
+							}
 							guard("binary form", func() {
 								b, err := api.Encode(ctx, in.Interface(), opts...)
 								if err != nil {
@@ -218,9 +232,10 @@ func TestInlinedMemberMatrix(t *testing.T) {
 									fail("binary round trip changed the value: %+v -> %+v", in.Elem().Interface(), out.Elem().Interface())
 								}
 								labels = append(labels, "binary_roundtrip")
+								binaryAccepted = true
 							})
 							accepted := false
-							guard("JSON form", func() {
+							guardJSON(func() {
 								j, err := api.JSONEncode(ctx, in.Interface(), opts...)
 								if err != nil {
 									labels = append(labels, "jsonencode_refused")
@@ -229,6 +244,131 @@ func TestInlinedMemberMatrix(t *testing.T) {
 								accepted = true
 								out := reflect.New(holderT)
 								if err := api.JSONDecode(ctx, j, out.Interface(), opts...); err != nil {
+									fail("JSONEncode wrote %s, JSONDecode refuses it: %v", j, err)
+								}
+								if !imEqual(in, out) {
+									fail("JSON round trip through %s changed the value: %+v -> %+v", j, in.Elem().Interface(), out.Elem().Interface())
+								}
+								labels = append(labels, "json_roundtrip")
+							})
+							stats.Case(check, accepted, cell, func() any { return cell }, labels...)
+						}
+					}
+				}
+			}
+		}
+	}
+	t.Logf("%d grid cells", cells)
+}
+
+func imAPI(t *testing.T) *serix.API {
+	api := serix.NewAPI()
+	must := func(err error) {
+		if err != nil {
+			t.Fatalf("registration: %v", err)
+		}
+	}
+	must(api.RegisterTypeSettings(imTyped{}, serix.TypeSettings{}.WithObjectType(uint8(9))))
+	must(api.RegisterTypeSettings(imArr{}, serix.TypeSettings{}.WithObjectType(uint8(4))))
+	must(api.RegisterTypeSettings(imBlob{}, serix.TypeSettings{}.WithObjectType(uint8(5)).WithLengthPrefixType(serix.LengthPrefixTypeAsByte)))
+	must(api.RegisterTypeSettings(imImplA{}, serix.TypeSettings{}.WithObjectType(uint8(1))))
+	must(api.RegisterTypeSettings(imImplB{}, serix.TypeSettings{}.WithObjectType(uint8(2))))
+	must(api.RegisterInterfaceObjects((*imIface)(nil), imImplA{}, imImplB{}))
+
+	return api
+}
+
+// TestInlinedMemberPairs: two inlined members side by side. Holder {X uint8 "x"; M1 <member> <tag>; M2 <member> <tag>}
+// over all ordered pairs of the member types of TestInlinedMemberMatrix, all nine tag combinations and all listed
+// values of both members. Two members can own the same keys (the same struct type twice, two interfaces, two objects
+// with a type code): whatever JSONEncode accepts has to come back unchanged.
+func TestInlinedMemberPairs(t *testing.T) {
+	const check = "inlined_member_pairs"
+	stats.Rule(check, "exhaustive grid: ordered pairs of the 22 member types of inlined_member_matrix x tag {inlined; inlined,optional; inlined,omitempty} for each of the two x every listed value of both members (validation off). Oracle as in inlined_member_matrix: what Encode accepts, Decode reads back completely and equal; what JSONEncode accepts, JSONDecode reads back equal; no panic. Distinct by grid cell; non-trivial = JSONEncode accepted the value")
+	ctx := context.Background()
+	api := imAPI(t)
+	tags := []string{",inlined", ",inlined,optional", ",inlined,omitempty"}
+	members := imMembers()
+	cells := 0
+	for _, m1 := range members {
+		for _, m2 := range members {
+			for _, tag1 := range tags {
+				for _, tag2 := range tags {
+					holderT := reflect.StructOf([]reflect.StructField{
+						{Name: "X", Type: reflect.TypeOf(uint8(0)), Tag: `serix:"x"`},
+						{Name: "M1", Type: m1.typ, Tag: reflect.StructTag(`serix:"` + tag1 + `"`)},
+						{Name: "M2", Type: m2.typ, Tag: reflect.StructTag(`serix:"` + tag2 + `"`)},
+					})
+					for v1i, v1 := range m1.values {
+						for v2i, v2 := range m2.values {
+							cells++
+							in := reflect.New(holderT)
+							in.Elem().Field(0).SetUint(200)
+							if v1 != nil {
+								in.Elem().Field(1).Set(reflect.ValueOf(v1))
+							}
+							if v2 != nil {
+								in.Elem().Field(2).Set(reflect.ValueOf(v2))
+							}
+							cell := fmt.Sprintf("M1=%s%q value#%d=%+v M2=%s%q value#%d=%+v", m1.name, tag1, v1i, v1, m2.name, tag2, v2i, v2)
+							fail := func(format string, a ...any) {
+								msg := fmt.Sprintf(format, a...)
+								stats.Violation(check, map[string]any{"cell": cell, "problem": msg})
+								t.Fatalf("%s: %s", cell, msg)
+							}
+							guard := func(what string, f func()) {
+								defer func() {
+									if r := recover(); r != nil {
+										fail("%s panicked: %v", what, r)
+									}
+								}()
+								f()
+							}
+							var labels []string
+							binaryAccepted := false
+							// a value that has no binary encoding (a nil pointer that is not optional, ...) is no value of the type:
+							// a crash of JSONEncode on it (a codec called with a nil receiver) is outside the property and counted
+							guardJSON := func(f func()) {
+								defer func() {
+									if r := recover(); r != nil {
+										if binaryAccepted {
+											fail("JSON form panicked: %v", r)
+										}
+										labels = append(labels, "json_panicked_on_value_without_binary_encoding")
+									}
+								}()
+								f()
+							}
+							guard("binary form", func() {
+								b, err := api.Encode(ctx, in.Interface())
+								if err != nil {
+									labels = append(labels, "encode_refused")
+									return
+								}
+								out := reflect.New(holderT)
+								n, err := api.Decode(ctx, b, out.Interface())
+								if err != nil {
+									fail("Encode wrote %x, Decode refuses it: %v", b, err)
+								}
+								if n != len(b) {
+									fail("Decode consumed %d of %d bytes", n, len(b))
+								}
+								if !imEqual(in, out) {
+									fail("binary round trip changed the value: %+v -> %+v", in.Elem().Interface(), out.Elem().Interface())
+								}
+								labels = append(labels, "binary_roundtrip")
+								binaryAccepted = true
+							})
+							accepted := false
+							guardJSON(func() {
+								j, err := api.JSONEncode(ctx, in.Interface())
+								if err != nil {
+									labels = append(labels, "jsonencode_refused")
+									return
+								}
+								accepted = true
+								out := reflect.New(holderT)
+								if err := api.JSONDecode(ctx, j, out.Interface()); err != nil {
 									fail("JSONEncode wrote %s, JSONDecode refuses it: %v", j, err)
 								}
 								if !imEqual(in, out) {
